@@ -54,14 +54,15 @@ def showVal : Val → String
   | .dateTime b td y => "D:" ++ hex16 b ++ (if td then ":td:" else ":dt:") ++ (if y then "1" else "0")
   | .error c => s!"E:{c}"
 
-/-- canonical form of a range: bounds and the non-empty cells (absolute positions, row-major) -/
+/-- canonical form of a range: bounds and the non-empty cells (absolute positions, row-major).
+    Written as a left fold (ranges reach 2^21 cells; `Range.cells` recurses once per cell). -/
 def showRange (r : Range.Rng Val) : String :=
   if r.inner.length = 0 then "ok E"
   else
     let w := r.width
-    let cells := (Range.cells r).filter (fun c => c.2.2 ≠ Val.empty)
-    let cs := cells.map fun c => s!"{r.sr + c.1},{r.sc + c.2.1},{showVal c.2.2}"
-    let _ := w
+    let st := r.inner.foldl (fun (st : Nat × List String) v =>
+      (st.1 + 1, if v = Val.empty then st.2 else s!"{r.sr + st.1 / w},{r.sc + st.1 % w},{showVal v}" :: st.2)) (0, [])
+    let cs := st.2.reverse
     s!"ok {r.sr} {r.sc} {r.er} {r.ec} " ++ (if cs.isEmpty then "-" else ";".intercalate cs)
 
 def showRes {α : Type} (f : α → String) : Res α → String
